@@ -356,3 +356,87 @@ Section Final.
     destruct (indep (town r) None) eqn:E; [reflexivity|]. exfalso. apply Hnd'. split; assumption.
   Qed.
 End Final.
+
+(* ---------- the label map (owner) and pixel -> structure lookup *)
+Lemma fregion_fnodes f : fregion f = flat_map opix (fnodes f).
+Proof.
+  unfold fregion, fnodes. rewrite flat_map_flat_map.
+  apply flat_map_ext_Forall. rewrite Forall_forall. intros t _. apply region_nodes.
+Qed.
+
+Lemma find_some_first {A} (g : A -> bool) l x : find g l = Some x -> In x l /\ g x = true.
+Proof. apply find_some. Qed.
+
+Theorem owner_of_own_pixel f u p :
+  NoDup (fregion f) -> In u (fnodes f) -> In p (opix u) -> owner f p = tid u.
+Proof.
+  intros Hnd Hu Hp. unfold owner.
+  destruct (find (fun t => memZ p (opix t)) (fnodes f)) as [t|] eqn:E.
+  - apply find_some in E. destruct E as [Ht Hm]. apply memZ_In in Hm.
+    rewrite fregion_fnodes in Hnd.
+    assert (t = u) by (eapply (NoDup_flat_map_inj opix (fnodes f) t u p); eassumption).
+    subst t. reflexivity.
+  - exfalso. apply (find_none _ _ E u) in Hu. apply memZ_false in Hu. exact (Hu Hp).
+Qed.
+
+Theorem owner_unassigned f p : ~ In p (fregion f) -> owner f p = -1.
+Proof.
+  intros Hn. unfold owner.
+  destruct (find (fun t => memZ p (opix t)) (fnodes f)) as [t|] eqn:E; [|reflexivity].
+  exfalso. apply find_some in E. destruct E as [Ht Hm]. apply memZ_In in Hm.
+  apply Hn. rewrite fregion_fnodes. apply in_flat_map. exists t. split; assumption.
+Qed.
+
+Lemma relabel_forest_fregion f : fregion (relabel_forest f) = fregion f.
+Proof. rewrite !fpix_fpv, relabel_forest_fpv. reflexivity. Qed.
+
+(* the criteria list is assembled as [min_delta; min_npix] ++ user criteria and
+   evaluated conjunctively *)
+Theorem indep_of_all cs o ov c :
+  indep_of cs o ov = true -> In c cs ->
+  match ov with Some v => crit_at c o v | None => crit_final c o end = true.
+Proof.
+  intros H Hc. destruct ov as [v|]; cbn [indep_of] in H; rewrite forallb_forall in H; apply H, Hc.
+Qed.
+
+Theorem min_delta_at d o v : crit_at (MinDelta d) o v = true <-> d <= vmax_l o - v.
+Proof. cbn. apply Z.leb_le. Qed.
+Theorem min_npix_at n den o v : crit_at (MinNpix n den) o v = true <-> n <= zlen o * den.
+Proof. cbn. apply Z.leb_le. Qed.
+Theorem min_delta_final d o : crit_final (MinDelta d) o = true <-> d <= vmax_l o - vmin_l o.
+Proof. cbn. apply Z.leb_le. Qed.
+Theorem min_npix_final n den o : crit_final (MinNpix n den) o = true <-> n <= zlen o * den.
+Proof. cbn. apply Z.leb_le. Qed.
+
+(* ---------- the order is unique when kept values are pairwise distinct *)
+Theorem sorted_perm_unique (l1 : list (Z * Z)) : forall l2,
+  sorted_desc l1 -> sorted_desc l2 -> Permutation l1 l2 -> NoDup (map snd l1) -> l1 = l2.
+Proof.
+  induction l1 as [|a l1 IH]; intros l2 H1 H2 HP Hnd.
+  - apply Permutation_nil in HP. symmetry. exact HP.
+  - destruct l2 as [|b l2]; [apply Permutation_sym, Permutation_nil in HP; discriminate|].
+    assert (a = b).
+    { assert (Ha : In a (b :: l2)) by (apply (Permutation_in _ HP); left; reflexivity).
+      assert (Hb : In b (a :: l1)) by (apply (Permutation_in _ (Permutation_sym HP)); left; reflexivity).
+      destruct Ha as [Ha|Ha]; [symmetry; exact Ha|].
+      destruct Hb as [Hb|Hb]; [exact Hb|].
+      exfalso.
+      inversion H1 as [|? ? _ Hall1]; subst. inversion H2 as [|? ? _ Hall2]; subst.
+      rewrite Forall_forall in Hall1, Hall2.
+      specialize (Hall1 b Hb). specialize (Hall2 a Ha). cbn beta in Hall1, Hall2.
+      assert (E : snd a = snd b) by lia.
+      cbn [map] in Hnd. inversion Hnd as [|? ? Hn _]; subst. apply Hn.
+      rewrite E. apply in_map, Hb. }
+    subst b. f_equal. apply IH.
+    + inversion H1; assumption.
+    + inversion H2; assumption.
+    + eapply Permutation_cons_inv. exact HP.
+    + cbn [map] in Hnd. inversion Hnd; assumption.
+Qed.
+
+Theorem mergeable_spec indep v t :
+  mergeable indep v t = true <->
+  is_leaf t = true /\ (vmax t = v \/ indep (town t) (Some v) = false).
+Proof.
+  unfold mergeable. rewrite andb_true_iff, orb_true_iff, Z.eqb_eq, negb_true_iff. reflexivity.
+Qed.
